@@ -203,7 +203,51 @@ def _is_increment(s: ast.stmt, tgt: ast.Subscript) -> bool:
     return False
 
 
+class _KPath:
+    """One path through a move kernel."""
+
+    def __init__(self, env: Env, facts: Facts) -> None:
+        self.env = env
+        self.facts = facts
+        self.conds: list[tuple] = []
+        self.writes: list[tuple[ast.stmt, bool, str]] = []
+        self.h_incs: list[Poly] = []
+        self.h_tests: list[int] = []      # increments done when h is tested
+        self.h_other: list[ast.stmt] = []
+        self.ret: tuple[ast.AST | None, Any] = (None, None)
+        self.opaque: list[ast.AST] = []
+
+    def fork(self) -> "_KPath":
+        q = _KPath(self.env.copy(), self.facts.copy())
+        q.conds = list(self.conds)
+        q.writes = list(self.writes)
+        q.h_incs = list(self.h_incs)
+        q.h_tests = list(self.h_tests)
+        q.h_other = list(self.h_other)
+        q.opaque = list(self.opaque)
+        return q
+
+
+def _refuted(facts: Facts, c: tuple) -> bool:
+    """Do the facts exclude the condition `c`?"""
+    if c[0] == "and":
+        return any(_refuted(facts, x) for x in c[1:])
+    if c[0] == "le":
+        return facts.prove_ge0(c[1] - c[2] - Poly.const(1))
+    if c[0] == "lt":
+        return facts.prove_ge0(c[1] - c[2])
+    if c[0] == "eq":
+        d = facts.norm(c[1] - c[2])
+        v = d.const_value()
+        return (v is not None and v != 0) or facts.prove_ge0(
+            d - Poly.const(1)) or facts.prove_ge0(-d - Poly.const(1))
+    return False
+
+
 def _kernel(ctx: Ctx, k: FuncInfo, fea: bool) -> dict[str, Any]:
+    """Path-wise: every path through the kernel is followed with the
+    symbolic evaluator; a path that writes x is an *accept* path.  What is
+    demanded of the paths does not depend on how the tests are nested."""
     repo = ctx.repo
     P = k.params
     want_params = ["i", "j", "n_cities", "dist"] + (["h"] if fea else []) \
@@ -211,32 +255,9 @@ def _kernel(ctx: Ctx, k: FuncInfo, fea: bool) -> dict[str, Any]:
     ctx.need(P == want_params, f"{k.name}{tuple(want_params)} signature")
     ev = make_evaluator(repo, k)
     ev.int_transparent = True
-    env = Env()
-    body = func_body(k)
-    # prefix: everything before the first `if`
-    idx = next((n for n, s in enumerate(body) if isinstance(s, ast.If)),
-               None)
-    ctx.need(idx is not None, f"{k.name}: accept `if`")
-    h_incs: list[Poly] = []
-    for s in body[:idx]:
-        tgt_h = _store_into(s, "h")
-        if tgt_h is not None:
-            # `h[k] += 1`, `h[k] = h[k] + 1`, `h[k] = 1 + h[k]`
-            if _is_increment(s, tgt_h):
-                h_incs.append(ev.num(env, tgt_h.slice))
-            else:
-                h_incs.append(Poly.var("?"))
-            continue
-        try:
-            env = ev.stmt(env, s)
-        except Unsupported as u:
-            ctx.ob("D6.1", k, s, False, f"cannot normalise: {u}",
-                   construct="kernel prefix")
-            return {}
-    acc: ast.If = body[idx]
-    rest = body[idx + 1:]
     i, j, n = Poly.var("i"), Poly.var("j"), Poly.var("n_cities")
     one = Poly.const(1)
+    y = Poly.var("y")
 
     def X(ix: Poly) -> Poly:
         return Poly.atom(("cell", "x", (ix,)))
@@ -246,169 +267,217 @@ def _kernel(ctx: Ctx, k: FuncInfo, fea: bool) -> dict[str, Any]:
     a, b, c = X(i - one), X(i), X(j)
     e = X(Poly.atom(("app", "mod", (j + one, n))))
     want_dy = D(a, c) + D(b, e) - D(a, b) - D(c, e)
-    # ---- accept guard
-    try:
-        guard = ev.cond(env, acc.test)
-    except Unsupported as u:
-        guard = None
-        if not fea:
-            ctx.ob("D6.4", k, acc.test, False, f"guard not normalised: {u}",
-                   construct="accept guard")
-    y = Poly.var("y")
-    dy_term = None
-    if not fea:
-        ok = guard is not None and guard[0] == "le" and \
-            guard[2] == Poly.const(0)
-        if ok:
-            dy_term = guard[1]
-        ctx.ob("D6.4", k, acc.test, bool(ok),
-               f"accept guard is [{show_cond(guard) if guard else '?'}]; "
-               "the EA must accept iff dy <= 0",
-               construct="EA accept guard dy <= 0")
-    # ---- returns
-    acc_ret = acc.body[-1] if acc.body and isinstance(
-        acc.body[-1], ast.Return) else None
-    fall_ret = rest[-1] if rest and isinstance(rest[-1], ast.Return) \
-        else None
-    n_returns = sum(1 for x in ast.walk(k.node)
-                    if isinstance(x, ast.Return))
-    ok_shape = acc_ret is not None and fall_ret is not None and \
-        n_returns == 2 and not acc.orelse and len(rest) == 1
-    ret_acc = ev.expr(env, acc_ret.value) if acc_ret is not None else None
-    ret_fall = ev.expr(env, fall_ret.value) if fall_ret is not None else None
-    if fea and isinstance(ret_acc, Poly):
-        dy_term = ret_acc - y
-    ok_dy = dy_term is not None and _sym(dy_term, "dist") == _sym(
-        want_dy, "dist")
-    ctx.ob("D6.1", k, k.node, bool(ok_dy),
-           f"dy = {show(dy_term) if dy_term is not None else '?'}" + (
-               "" if ok_dy else f"; 2-opt delta is {show(want_dy)}"),
-           construct="2-opt delta")
-    ok_ret = ok_shape and dy_term is not None and ret_acc == y + dy_term \
-        and ret_fall == y
-    ctx.ob("D6.3", k, acc_ret or k.node, bool(ok_ret),
-           f"accept path returns {show(ret_acc) if ret_acc is not None else '?'}"
-           f", other path returns "
-           f"{show(ret_fall) if ret_fall is not None else '?'}",
-           construct="returned lengths")
-    # ---- x is written only inside the accept branch
-    writes = [s for s in ast.walk(k.node) if isinstance(
-        s, (ast.Assign, ast.AugAssign)) and any(
-        isinstance(t, ast.Subscript) and isinstance(t.value, ast.Name)
-        and t.value.id == "x" for t in (
-            s.targets if isinstance(s, ast.Assign) else [s.target]))]
-    inside = {id(s) for s in ast.walk(acc) if isinstance(
-        s, (ast.Assign, ast.AugAssign))} - {id(s) for s in ast.walk(
-            ast.Module(body=acc.orelse, type_ignores=[]))}
-    stray = [s for s in writes if id(s) not in inside]
-    ctx.ob("D6.3", k, stray[0] if stray else acc, not stray and bool(writes),
-           "x is written only on the accept path" if not stray and writes
-           else ("x is written outside the accept path" if stray else
-                 "x is never written: accepted moves are not applied"),
-           construct="x written only when accepted")
-    # ---- FEA guard and increments
-    if fea:
-        y2 = y + (dy_term if dy_term is not None else Poly.var("?"))
-        hy = Poly.atom(("cell", "h", (y,)))
-        hy2 = Poly.atom(("cell", "h", (y2,)))
-        okg = False
-        try:
-            # evaluate the guard with h loads as plain cells
-            g = ev.cond(env, acc.test)
-            okg = g[0] == "le" and g[1] == hy2 and g[2] == hy
-        except Unsupported:
-            g = None
-        ctx.ob("D6.4", k, acc.test, okg,
-               f"accept guard is [{show_cond(g) if g else '?'}]; the FEA "
-               "must accept iff h[y2] <= h[y]",
-               construct="FEA accept guard h[y2] <= h[y]")
-        ok_inc = sorted(map(repr, h_incs)) == sorted(map(repr, [y, y2])) \
-            and not any(isinstance(s, (ast.Assign, ast.AugAssign)) and any(
-                isinstance(t, ast.Subscript) and isinstance(
-                    t.value, ast.Name) and t.value.id == "h"
-                for t in (s.targets if isinstance(s, ast.Assign)
-                          else [s.target]))
-                for s in ast.walk(acc))
-        ctx.ob("D6.4", k, k.node, ok_inc,
-               f"h is incremented at {[show(p) for p in h_incs]} before the "
-               "test (want exactly h[y] and h[y2], once each)",
-               construct="frequency increments")
-    # ---- D6.2 slice assignments on the accept path
     base = Facts()
     # contract established by solve(): 0 <= i < j <= n-2
     base.ge0 += [i, j - i - one, n - Poly.const(2) - j]
-    n_slices = [0]
+    done: list[_KPath] = []
+    broken: list[tuple[ast.AST, str]] = []
 
-    def walk(stmts: list[ast.stmt], facts: Facts, env: Env = env) -> None:
-        env = env.copy()
-        for s in stmts:
+    def x_store(s: ast.stmt) -> bool:
+        tgs = s.targets if isinstance(s, ast.Assign) else (
+            [s.target] if isinstance(s, (ast.AugAssign, ast.AnnAssign))
+            else [])
+        return any(isinstance(t, ast.Subscript) and isinstance(
+            t.value, ast.Name) and t.value.id == "x" for t in tgs)
+
+    def go(stmts: list[ast.stmt], st: _KPath) -> None:
+        for pos, s in enumerate(stmts):
             if isinstance(s, ast.If):
                 try:
-                    c = ev.cond(env, s.test)
+                    cnd = ev.cond(st.env, s.test)
                 except Unsupported:
-                    c = None
-                f1, f2 = facts.copy(), facts.copy()
-                if c is not None:
-                    f1.add_cond(c)
-                    f2.add_cond(c_not(c))
-                walk(s.body, f1, env)
-                walk(s.orelse, f2, env)
-            elif isinstance(s, (ast.Assign, ast.AnnAssign)) and all(
-                    isinstance(t, ast.Name) for t in (
-                        s.targets if isinstance(s, ast.Assign)
-                        else [s.target])):
-                # a temporary of the accept branch (e.g. the slice end)
+                    cnd = None
+                on_h = any(isinstance(q, ast.Subscript) and isinstance(
+                    q.value, ast.Name) and q.value.id == "h"
+                    for q in ast.walk(s.test))
+                for branch, cc in ((s.body, cnd), (
+                        s.orelse, c_not(cnd) if cnd is not None else None)):
+                    q = st.fork()
+                    if cc is None:
+                        q.opaque.append(s.test)
+                    elif _refuted(q.facts, cc):
+                        continue
+                    else:
+                        q.facts.add_cond(cc)
+                        q.conds.append(cc)
+                    if on_h:
+                        q.h_tests.append(len(q.h_incs))
+                    go(list(branch) + list(stmts[pos + 1:]), q)
+                return
+            if isinstance(s, ast.Return):
                 try:
-                    env = ev.stmt(env, s)
+                    st.ret = (s, ev.expr(st.env, s.value)
+                              if s.value is not None else None)
                 except Unsupported:
-                    for t in (s.targets if isinstance(s, ast.Assign)
-                              else [s.target]):
-                        env.vars.pop(t.id, None)
-            elif isinstance(s, ast.Assign) and any(
-                    isinstance(t, ast.Subscript) and isinstance(
-                        t.value, ast.Name) and t.value.id == "x"
-                    for t in s.targets):
-                n_slices[0] += 1
+                    st.ret = (s, None)
+                done.append(st)
+                return
+            tgt_h = _store_into(s, "h")
+            if tgt_h is not None:
+                if _is_increment(s, tgt_h):
+                    try:
+                        st.h_incs.append(ev.num(st.env, tgt_h.slice))
+                    except Unsupported:
+                        st.h_incs.append(Poly.var("?"))
+                else:
+                    st.h_other.append(s)
+                continue
+            if isinstance(s, ast.AugAssign) and x_store(s):
+                st.writes.append((s, False, "in-place update of x is not a "
+                                  "reversal"))
+                continue
+            if isinstance(s, ast.Assign) and x_store(s):
                 tgt = s.targets[0]
-                tp = _slice_positions(ev, env, tgt, "x", facts, n)
-                sp = _slice_positions(ev, env, s.value, "x", facts, n)
+                tp = _slice_positions(ev, st.env, tgt, "x", st.facts, n)
+                sp = _slice_positions(ev, st.env, s.value, "x", st.facts, n)
                 ok = False
-                why = ""
                 if isinstance(tp, str):
                     why = "target: " + tp
                 elif isinstance(sp, str):
                     why = "source: " + sp
                 else:
-                    fi_, fj_ = facts.norm(i), facts.norm(j)
+                    fi_, fj_ = st.facts.norm(i), st.facts.norm(j)
                     ok = tp[2] == 1 and sp[2] == -1 and tp[0] == fi_ and \
                         tp[1] == fj_ and sp[0] == fj_ and sp[1] == fi_
                     why = (f"target positions {show(tp[0])}..{show(tp[1])}"
                            f" step {tp[2]}, source {show(sp[0])}.."
                            f"{show(sp[1])} step {sp[2]}; want i..j <- j..i")
-                ctx.ob("D6.2", k, s, ok, why,
-                       construct=f"reversal {ast.unparse(s)}")
-            elif isinstance(s, ast.AugAssign) and isinstance(
-                    s.target, ast.Subscript) and isinstance(
-                    s.target.value, ast.Name) and s.target.value.id == "x":
-                n_slices[0] += 1
-                ctx.ob("D6.2", k, s, False, "in-place update of x is not a "
-                       "reversal", construct=f"reversal {ast.unparse(s)}")
-    walk(acc.body, base)
-    ctx.count("slice_assignments", n_slices[0])
-    # every path of the accept branch that returns the new length applies
-    # a reversal (dominance on the statement CFG)
-    from sa.cfg import CFG
-    cfg = CFG(k.node)
-    slice_nodes = {id(s) for s in writes}
-    ret_node = next((nd for nd in cfg.nodes if nd.ast is acc_ret), None)
-    applied = ret_node is not None and acc_ret is not None and \
-        cfg.dominated_by(ret_node, lambda nd: nd.kind == "stmt"
-                         and id(nd.ast) in slice_nodes)
-    ctx.ob("D6.2", k, acc_ret or acc, bool(applied),
-           "every path that returns the new length has reversed x[i..j]"
-           if applied else
-           "a path returns y + dy although the tour was not changed: the "
-           "registered length is not the length of x",
+                st.writes.append((s, ok, why))
+                continue
+            if isinstance(s, (ast.For, ast.While)):
+                broken.append((s, "cannot normalise: a loop in the kernel"))
+                return
+            if isinstance(s, (ast.Pass,)) or (isinstance(
+                    s, ast.Expr) and isinstance(s.value, ast.Constant)):
+                continue
+            try:
+                st.env = ev.stmt(st.env, s)
+            except Unsupported as u:
+                broken.append((s, f"cannot normalise: {u}"))
+                return
+        done.append(st)      # fell off the end: returns None
+
+    go(func_body(k), _KPath(Env(), base))
+    if broken:
+        ctx.ob("D6.1", k, broken[0][0], False, broken[0][1],
+               construct="kernel prefix")
+        return {}
+
+    def trail(q: _KPath) -> str:
+        return "[" + " and ".join(show_cond(c_) for c_ in q.conds)[:200] \
+            + "]"
+    accept = [q for q in done if q.writes]
+    reject = [q for q in done if not q.writes]
+    opaque = [q for q in done if q.opaque]
+    # ---- D6.1: what an accept path adds to y is the 2-opt delta
+    deltas = []
+    for q in accept:
+        r = q.ret[1]
+        deltas.append(r - y if isinstance(r, Poly) else None)
+    dy_term = deltas[0] if deltas and all(
+        d_ is not None and d_ == deltas[0] for d_ in deltas) else None
+    if dy_term is None and not accept and not fea:
+        # no accept path: take the quantity the kernel calls the delta
+        dy_term = None
+    ok_dy = dy_term is not None and _sym(dy_term, "dist") == _sym(
+        want_dy, "dist")
+    ctx.ob("D6.1", k, k.node, bool(ok_dy),
+           f"dy = {show(dy_term) if dy_term is not None else '?'}" + (
+               "" if ok_dy else f"; 2-opt delta is {show(want_dy)}" + (
+                   "" if accept else " (no path applies a move)")),
+           construct="2-opt delta")
+    # ---- D6.3: returned lengths
+    bad_ret = [q for q in reject if not (
+        isinstance(q.ret[1], Poly) and q.ret[1] == y)]
+    no_ret = [q for q in done if q.ret[0] is None]
+    ok_ret = dy_term is not None and not bad_ret and not no_ret and \
+        bool(reject)
+    ctx.ob("D6.3", k, (bad_ret or no_ret or done)[0].ret[0] or k.node,
+           bool(ok_ret),
+           f"the {len(accept)} path(s) that apply the move return y + dy, "
+           f"the {len(reject)} other path(s) return y" if ok_ret else (
+               "a path ends without returning a length" if no_ret else
+               f"on the path {trail(bad_ret[0])} the tour is not changed "
+               f"but {show(bad_ret[0].ret[1]) if isinstance(bad_ret[0].ret[1], Poly) else '?'}"
+               " is returned instead of y" if bad_ret else
+               "the paths that apply the move do not all return y + the "
+               "same delta" if accept else "no path applies a move"),
+           construct="returned lengths")
+    # ---- accept criterion, both directions, path by path
+    if fea:
+        y2 = y + (dy_term if dy_term is not None else Poly.var("?"))
+        hy = Poly.atom(("cell", "h", (y,)))
+        hy2 = Poly.atom(("cell", "h", (y2,)))
+        acc_goal, rej_goal = hy - hy2, hy2 - hy - one
+        crit = "h[y2] <= h[y]"
+        cname = "FEA accept guard h[y2] <= h[y]"
+    else:
+        d_ = dy_term if dy_term is not None else want_dy
+        acc_goal, rej_goal = -d_, d_ - one
+        crit = "dy <= 0"
+        cname = "EA accept guard dy <= 0"
+    wrong_acc = [q for q in accept if not q.facts.prove_ge0(acc_goal)]
+    wrong_rej = [q for q in reject if not q.facts.prove_ge0(rej_goal)]
+    okg = not wrong_acc and not wrong_rej and bool(accept) and bool(reject)
+    if okg:
+        msg = (f"the move is applied on exactly the paths on which {crit} "
+               f"holds ({len(accept)} accept / {len(reject)} reject paths)")
+    elif opaque and all(q.opaque for q in wrong_acc + wrong_rej):
+        msg = (f"cannot normalise the test `"
+               f"{ast.unparse(opaque[0].opaque[0])[:80]}`: not recognised")
+    elif wrong_acc:
+        msg = (f"the move is applied on the path {trail(wrong_acc[0])} on "
+               f"which {crit} is not known to hold; must accept iff {crit}")
+    elif wrong_rej:
+        msg = (f"the move is NOT applied on the path {trail(wrong_rej[0])} "
+               f"although {crit} may hold there; must accept iff {crit}")
+    else:
+        msg = ("x is never written: accepted moves are not applied"
+               if not accept else "every path applies the move")
+    ctx.ob("D6.4", k, (wrong_acc[0].writes[0][0] if wrong_acc else k.node),
+           okg, msg, construct=cname)
+    ctx.ob("D6.3", k, wrong_acc[0].writes[0][0] if wrong_acc else k.node,
+           not wrong_acc and bool(accept),
+           "x is written only on the accept path" if accept and not
+           wrong_acc else ("x is written outside the accept path"
+                           if accept else "x is never written: accepted "
+                           "moves are not applied"),
+           construct="x written only when accepted")
+    if fea:
+        want_inc = sorted(map(repr, [y, y + (dy_term if dy_term is not None
+                                             else Poly.var("?"))]))
+        bad_inc = [q for q in done if sorted(map(repr, q.h_incs)) != want_inc
+                   or q.h_other or any(t != 2 for t in q.h_tests)
+                   or not q.h_tests]
+        ctx.ob("D6.4", k, k.node, not bad_inc,
+               f"h is incremented at {[show(p_) for p_ in done[0].h_incs]} "
+               "before the test on every path (want exactly h[y] and h[y2], "
+               "once each)" if not bad_inc else
+               f"on the path {trail(bad_inc[0])} h is incremented at "
+               f"{[show(p_) for p_ in bad_inc[0].h_incs]} "
+               f"({bad_inc[0].h_tests} increments done when it is tested); "
+               "want exactly h[y] and h[y2], once each, before the test",
+               construct="frequency increments")
+    # ---- D6.2: every write is the reversal, one per accept path
+    seen_w: dict[int, tuple[ast.stmt, bool, str]] = {}
+    for q in accept:
+        for w in q.writes:
+            cur = seen_w.get(id(w[0]))
+            if cur is None or (cur[1] and not w[1]):
+                seen_w[id(w[0])] = w
+    for s_, okw, why in seen_w.values():
+        ctx.ob("D6.2", k, s_, okw, why,
+               construct=f"reversal {ast.unparse(s_)}")
+    ctx.count("slice_assignments", len(seen_w))
+    multi = [q for q in accept if len(q.writes) != 1]
+    ctx.ob("D6.2", k, multi[0].writes[1][0] if multi else k.node,
+           not multi and bool(accept),
+           "every path that returns the new length has reversed x[i..j] "
+           "exactly once" if accept and not multi else (
+               f"the path {trail(multi[0])} writes x {len(multi[0].writes)} "
+               "times: the registered length is not the length of x"
+               if multi else "a path returns y + dy although the tour was "
+               "not changed: the registered length is not the length of x"),
            construct="reversal on every accept path")
     return {"dy": dy_term}
 
